@@ -115,6 +115,24 @@ fn build(tier: Tier) -> Vec<Scenario> {
             ));
         }
     }
+    // the same replication changes on three uneven hosts: the consumer replicas of one host are
+    // fed by producers of different remote hosts (each demultiplexer must accept them all)
+    for layout in [Layout::Remote(vec![2, 1, 1]), Layout::Remote(vec![1, 2, 1])] {
+        let cores = layout.total_cores() as usize;
+        let cfg = JobCfg { layout, batch: BatchMode::fixed(2), capacity: 0 };
+        for prog in repl_progs.iter().take(if tier == Tier::Quick { 4 } else { repl_progs.len() }) {
+            out.push(program_scenario(
+                "C01/repl",
+                prog,
+                &[1, 2, 3, 4, 5, 6, 7, 8],
+                SrcKind::Par((0..8).map(|i| i % cores).collect()),
+                &cfg,
+                0,
+                &ORDERS3[..1],
+                "repl-limited:".to_string(),
+            ));
+        }
+    }
     // the templates once more with adaptive batching (timeout paths of Start and Batcher)
     {
         let cfg = JobCfg { layout: Layout::Local(2), batch: BatchMode::adaptive(2, std::time::Duration::from_millis(10)), capacity: 0 };
